@@ -29,7 +29,7 @@ func runC12(c *Ctx) {
 	c.Rule("C12.B", "no endpoint blocks on a peer that may be gone", 3)
 	c.Rule("C12.N", "possibly-nil messages are nil-checked by the receiving goroutine (= C07.N)", 2)
 	ruleShimNilMessages(c, p, "C12.N")
-	c.Rule("C12.A", "every endpoint path answers, with an allowed status", 10)
+	c.Rule("C12.A", "every endpoint path answers once, with an allowed status", 15)
 	c.Rule("C12.U", "unknown or closed sessions are rejected with 400 and forgotten", 14)
 	c.Rule("C12.L", "connection lifecycle pairing", 7)
 
@@ -91,6 +91,33 @@ func runC12(c *Ctx) {
 		wk := &Walk{Target: IsReturn, Avoid: isAns}
 		hit, path := wk.FromBlock(fn.Blocks[0])
 		c.Check("C12.A", name+":every-path-answers", p, fn.Pos(), hit == nil, "every path from entry to a return passes http.Error / WriteHeader / Write / delegation on the handler's own writer", "the "+name+" endpoint has a path that returns without producing an HTTP answer ("+PathString(p, path)+", return at "+posStr(p, hit)+")")
+		// an error answer ends the call: nothing else is answered or sent after http.Error
+		dbl := ""
+		EachInstr(fn, func(i ssa.Instruction) {
+			if !IsCall(i, "net/http.Error") {
+				return
+			}
+			h, _ := (&Walk{Target: func(j ssa.Instruction) bool {
+				if j == i {
+					return false
+				}
+				if _, ok := producesResponse(j, w); ok {
+					return true
+				}
+				return IsCall(j, "(*"+ModPath+"/agent/websockets.Connection).SendClientMessage", "(*"+ModPath+"/agent/websockets.Connection).Close", "(*sync.Map).Store")
+			}}).FromInstr(i)
+			if h != nil && !InLoop(i.Block()) {
+				dbl = "after the error answer at " + p.Pos(i.Pos()) + " the handler goes on to " + p.Pos(h.Pos())
+			}
+			if h != nil && InLoop(i.Block()) {
+				// inside the per-message loop the error branch must leave the loop: reaching the same http.Error again is also a continuation
+				h2, _ := (&Walk{Target: func(j ssa.Instruction) bool { return j != i && IsCall(j, "(*"+ModPath+"/agent/websockets.Connection).SendClientMessage") }}).FromInstr(i)
+				if h2 != nil {
+					dbl = "after the error answer at " + p.Pos(i.Pos()) + " the per-message loop continues"
+				}
+			}
+		})
+		c.Check("C12.A", name+":error-answer-ends-the-call", p, fn.Pos(), dbl == "", "every http.Error is followed only by bookkeeping and return: one answer per call", "the "+name+" endpoint: "+dbl+" (second answer on the same call / work done for a rejected call)")
 		used := map[int64]bool{}
 		bad := ""
 		EachInstr(fn, func(i ssa.Instruction) {
